@@ -9,9 +9,99 @@ events are the effects of the earlier one (emitted output, subscribe, unsubscrib
 import fw
 from fw import InjectedError, enc, err_name
 
+import functools
+import json as _json
+
 SUBSCRIBE_AT = 200
 END = 2000
 FALSY = [None, 0, False, "", (), 1, "a", 0.0]
+
+
+# --------------------------------------------------------------------------------------------- values with unusual equality
+class _Special:
+    """an element whose == is not to be trusted; it is identified by the (source, index) tag it travels with, never by =="""
+    def __init__(self, spec):
+        self.spec = spec
+
+    def __hash__(self):
+        return id(self)
+
+    def __repr__(self):
+        return "special:" + _json.dumps(self.spec)
+
+
+class EqTrue(_Special):        # like unittest.mock.ANY
+    def __eq__(self, other):
+        return True
+
+    __hash__ = _Special.__hash__
+
+
+class EqFalse(_Special):       # not even equal to itself
+    def __eq__(self, other):
+        return False
+
+    __hash__ = _Special.__hash__
+
+
+class EqRaises(_Special):      # e.g. an array-like with element-wise ==
+    def __eq__(self, other):
+        raise InjectedError("eq")
+
+    __hash__ = _Special.__hash__
+
+
+SPECIAL_KINDS = [".eq_true", ".eq_false", ".eq_raises", "nan"]
+_SPECIAL_CLASSES = {".eq_true": EqTrue, ".eq_false": EqFalse, ".eq_raises": EqRaises}
+
+
+def decode_value(j):
+    if isinstance(j, dict) and "t" in j:
+        if len(j["t"]) == 3 and j["t"][0] in _SPECIAL_CLASSES:
+            return _SPECIAL_CLASSES[j["t"][0]](j)      # the element IS the special object; it carries its (source, index) tag
+        return tuple(decode_value(x) for x in j["t"])
+    if isinstance(j, list):
+        return [decode_value(x) for x in j]
+    return fw.dec(j)
+
+
+def enc2(v):
+    if isinstance(v, _Special):
+        return v.spec
+    if isinstance(v, tuple):
+        return {"t": [enc2(x) for x in v]}
+    if isinstance(v, list):
+        return [enc2(x) for x in v]
+    return enc(v)
+
+
+# --------------------------------------------------------------------------------------------- user callables of every form
+CALLABLE_FORMS = ["def", "lambda", "partial", "method", "object"]
+
+
+def as_callable(fn, form):
+    """the same function as a plain def, a lambda, a functools.partial, a bound method, an object with __call__"""
+    if form == "lambda":
+        return lambda *a: fn(*a)
+    if form == "partial":
+        return functools.partial(lambda _tag, *a: fn(*a), "tag")
+    if form == "method":
+        class Holder:
+            def call(self, *a):
+                return fn(*a)
+
+        return Holder().call
+    if form == "object":
+        class Callable:
+            def __call__(self, *a):
+                return fn(*a)
+
+        return Callable()
+
+    def plain(*a):
+        return fn(*a)
+
+    return plain
 
 
 # --------------------------------------------------------------------------------------------- the world
@@ -101,7 +191,7 @@ def make_src(world, sid, spec):
         def _deliver(self, o, m, my):
             if m[1] == "N":
                 world.log.append(["ev", my, ["N", m[2]], world.now()])
-                o.on_next(fw.dec(m[2]))
+                o.on_next(decode_value(m[2]))
             elif m[1] == "E":
                 world.log.append(["ev", my, ["E", m[2]], world.now()])
                 o.on_error(InjectedError(m[2]))
@@ -187,6 +277,111 @@ def add_duplicate(rng, specs, p=0.12):
         specs[i] = dict(specs[j], same_as=j)
 
 
+_ITER_CTX = {"world": None, "ids": {}}
+
+
+def _install_from_tap():
+    """flat_map turns a mapper result that is a plain ITERABLE into an observable with `from_` inside `_flatmap.py`: tap that call
+    (once per process) so that the resulting inner is a logged source; the iterable is recognised by identity"""
+    import reactivex.operators._flatmap as fm
+
+    if getattr(fm.from_, "_verif_tap", False):
+        return
+    orig = fm.from_
+
+    def tapped(iterable, scheduler=None):
+        w = _ITER_CTX["world"]
+        sid = _ITER_CTX["ids"].get(id(iterable))
+        if w is None or sid is None:
+            return orig(iterable, scheduler)
+        return make_tap(w, sid, orig(iterable, scheduler))
+
+    tapped._verif_tap = True
+    fm.from_ = tapped
+
+
+def make_iterable(world, sid, spec):
+    """{"mode": "iter", "kind": "list"|"tuple"|"gen"|"iter", "vals": [...], "fail_after": k|None}: what a flat_map mapper may return
+    instead of an observable. "gen": a generator that raises after k elements; "iter": an iterator that logs every pull."""
+    vals = [decode_value(v) for v in spec["vals"]]
+    k = spec.get("fail_after")
+    kind = spec["kind"]
+    if kind == "list":
+        obj = list(vals)
+    elif kind == "tuple":
+        obj = tuple(vals)
+    elif kind == "gen":
+        def gen():
+            for j, v in enumerate(vals):
+                if k is not None and j == k:
+                    raise InjectedError(f"g{sid}")
+                world.log.append(["pull", sid, j, world.now()])
+                yield v
+            if k is not None and k >= len(vals):
+                raise InjectedError(f"g{sid}")
+
+        obj = gen()
+    else:
+        class LoggingIter:
+            def __init__(self):
+                self.j = 0
+
+            def __iter__(self):
+                return self
+
+            def __next__(self):
+                j = self.j
+                if k is not None and j == min(k, len(vals)):
+                    raise InjectedError(f"g{sid}")
+                if j >= len(vals):
+                    raise StopIteration
+                self.j += 1
+                world.log.append(["pull", sid, j, world.now()])
+                return vals[j]
+
+        obj = LoggingIter()
+    _ITER_CTX["world"] = world
+    _ITER_CTX["ids"][id(obj)] = sid
+    world._keep = getattr(world, "_keep", []) + [obj]     # keep it alive: ids are recognised by identity
+    return obj
+
+
+def iter_expected(spec, sid, sub_t):
+    vals = spec["vals"]
+    k = spec.get("fail_after")
+    n = len(vals) if k is None else min(k, len(vals))
+    out = [[sub_t, ["N", vals[j]]] for j in range(n)]
+    out.append([sub_t, ["C"] if k is None else ["E", f"g{sid}"]])
+    return out
+
+
+def iter_delivery_failure(inners, log):
+    """an inner given as a lazy iterable delivers exactly its elements up to its failure, in order, and is pulled only after it was
+    subscribed (never inside the mapper call)"""
+    for key, spec in inners.items():
+        if spec.get("mode") != "iter":
+            continue
+        sid = int(key)
+        arrived = [p for p, e in enumerate(log) if e[0] == "ev" and e[1] == 0 and e[2] == ["N", sid]]
+        subs = [p for p, e in enumerate(log) if e[0] == "sub" and e[1] == sid]
+        pulls = [p for p, e in enumerate(log) if e[0] == "pull" and e[1] == sid]
+        if pulls and (not subs or pulls[0] < subs[0]):
+            return f"the iterable returned for inner {sid} was pulled before it was subscribed (inside the mapper call): it must be consumed lazily"
+        if subs:
+            s_t = log[subs[0]][2]
+            got = [[e[3], e[2]] for e in log if e[0] == "ev" and e[1] == sid]
+            exp = iter_expected(spec, sid, s_t)
+            uns = [e[2] for e in log if e[0] == "unsub" and e[1] == sid]
+            ended_same_instant = bool(uns) and uns[0] == s_t and got != exp
+            if got != exp[: len(got)] or (len(got) < len(exp) and not ended_same_instant and not any(
+                    e[0] == "dispose" or (e[0] == "out" and e[1][0] != "N") for e in log[: subs[0] + 1])):
+                # cut short only by the end of the whole sequence in that very instant
+                ended = [p for p, e in enumerate(log) if e[0] == "dispose" or (e[0] == "out" and e[1][0] != "N")]
+                if got != exp[: len(got)] or not ended:
+                    return f"inner {sid} (iterable {spec['kind']}, fails after {spec.get('fail_after')}) delivered {got}, it owes {exp}"
+    return None
+
+
 def make_timer_src(world, sid, spec):
     """{"mode": "timer", "due": d, "period": p|None, "count": m}: rx.timer WITHOUT an explicit scheduler - it runs on whatever
     scheduler reaches it through subscribe(scheduler=...) - behind a logging tap.  Emits (sid, i, 1) for i < m, then completes."""
@@ -223,7 +418,7 @@ def make_tap(world, sid, inner, value_id=None):
         closed = [False]
 
         def on_next(v):
-            world.log.append(["ev", sid, ["N", value_id(v) if value_id else enc(v)], world.now()])
+            world.log.append(["ev", sid, ["N", value_id(v) if value_id else enc2(v)], world.now()])
             observer.on_next(v)
 
         def on_error(e):
@@ -262,7 +457,7 @@ def run_second_subscriber(make_world_and_build, second):
 
             def go(*_):
                 holder[tag] = holder["obs"].subscribe(
-                    lambda v: out.append([world.now(), ["N", enc(v)]]),
+                    lambda v: out.append([world.now(), ["N", enc2(v)]]),
                     lambda e: out.append([world.now(), ["E", err_name(e)]]),
                     lambda: out.append([world.now(), ["C"]]),
                     scheduler=sched)
@@ -356,9 +551,9 @@ def run_world(world, build, dispose=None, cut=None, inline=False, react=None):
     seen = [0]
 
     def on_next(v):
-        log.append(["out", ["N", enc(v)], world.now()])
+        log.append(["out", ["N", enc2(v)], world.now()])
         if react is not None:
-            react(enc(v))     # the consumer reacts to an element (e.g. pushes the next request into the outer subject)
+            react(enc2(v))     # the consumer reacts to an element (e.g. pushes the next request into the outer subject)
         seen[0] += 1
         if cut is not None and seen[0] == cut:
             do_dispose()
@@ -487,11 +682,17 @@ def grammar_ok(out):
 
 
 # --------------------------------------------------------------------------------------------- generators
-def gen_timeline(rng, sid, maxn=4, span=40, base=0, p_complete=0.55, p_error=0.2, grid=5):
+def gen_timeline(rng, sid, maxn=4, span=40, base=0, p_complete=0.55, p_error=0.2, grid=5, specials=0.0):
     """messages with times on a coarse grid so that simultaneous events across sources are frequent"""
     n = rng.choice([0, 0, 1, 1, 2, 2, 3, maxn])
     ts = sorted(base + grid * rng.randint(0 if base else 0, span // grid) for _ in range(n))
-    msgs = [[t, "N", enc((sid, j, rng.choice(FALSY)))] for j, t in enumerate(ts)]
+    def value(j):
+        if rng.random() < specials:
+            k = rng.choice(SPECIAL_KINDS)
+            return {"t": [sid, j, {"f": "nan"}]} if k == "nan" else {"t": [k, sid, j]}
+        return {"t": [sid, j, enc(rng.choice(FALSY))]}
+
+    msgs = [[t, "N", value(j)] for j, t in enumerate(ts)]
     last = ts[-1] if ts else base
     r = rng.random()
     tt = last + grid * rng.randint(0, 3)
@@ -585,7 +786,7 @@ def gen_ho_case(rng, op, max_inner=4, allow_sync=True, p_rude=0.15, p_timer=0.0,
         b = rng.choice(later)
         if inners[str(a)]["mode"] in ("cold", "hot"):
             inners[str(b)] = {"mode": inners[str(a)]["mode"], "same_as": a, "msgs": []}
-    case = {"op": op, "outer": outer, "inners": inners, "dispose": gen_dispose(rng, 0.2)}
+    case = {"op": op, "outer": outer, "inners": inners, "dispose": gen_dispose(rng, 0.2), "callable_form": rng.choice(CALLABLE_FORMS)}
     if op in ("flat_map", "flat_map_indexed", "concat_map", "switch_map", "switch_map_indexed", "flat_map_latest") and ids and rng.random() < 0.25:
         case["raise_on"] = rng.choice(ids)   # the mapper raises on this outer element
     return case
@@ -699,6 +900,8 @@ def ho_world_and_build(case):
         arrival = [m_[2] for m_ in case["outer"]["msgs"] if m_[1] == "N"]
         inners = {}
         for k, s_ in case["inners"].items():
+            if s_.get("mode") == "iter":
+                continue
             if "same_as" not in s_:
                 same = [int(k2) for k2, s2 in case["inners"].items() if s2.get("same_as") == int(k)]
                 if same:
@@ -709,14 +912,26 @@ def ho_world_and_build(case):
             if "same_as" in s_:
                 inners[int(k)] = inners[s_["same_as"]]      # the same object
 
+        iter_specs = {int(k): s_ for k, s_ in case["inners"].items() if s_.get("mode") == "iter"}
+        if iter_specs:
+            _install_from_tap()
+            _ITER_CTX["world"], _ITER_CTX["ids"] = w, {}
+
         def mapper(i):
             if i == raise_on:
                 raise InjectedError("mapper")
+            if i in iter_specs:
+                return make_iterable(w, i, iter_specs[i])      # a plain iterable: flat_map wraps it with from_()
             return inners[i]
 
         def mapper_indexed(i, idx):
             idx_seen.append(idx)
             return mapper(i)
+
+        form = case.get("callable_form", "def")
+        mapper_, mapper_indexed_ = mapper, mapper_indexed
+        mapper = as_callable(mapper_, form)
+        mapper_indexed = as_callable(mapper_indexed_, form)
 
         if op == "rx_merge":
             # rx.merge(*sources) = from_iterable(sources).pipe(merge_all()): tap the internal from_iterable as source 0
